@@ -8,7 +8,7 @@ def run(tier):
         "C01: no projection; every row over a 9-call alphabet (phased/unphased, missing, partially missing, multiallelic, "
         "0/2, haploid) for three samples x 11 sample lists (1-3 populations, subsets, named/unnamed) x strict on/off; "
         "histories of up to 3 records for the accumulation; unselected samples carry every call incl. ploidy errors; every scenario also runs through the BCF path (raw, or BGZF with an optional empty leading block).",
-        ["MCCreate_c01_quick.cfg", "MCCreate_names.cfg", "MCCreate_fmt.cfg"], ["MCCreate_c01_quick.cfg", "MCCreate_hist_t1.cfg", "MCCreate_perm_quick.cfg", "MCCreate_names.cfg", "MCCreate_fmt.cfg"],
+        ["MCCreate_c01_quick.cfg", "MCCreate_names.cfg", "MCCreate_fmt.cfg", "MCCreate_hist_quick.cfg"], ["MCCreate_c01_quick.cfg", "MCCreate_hist_t1.cfg", "MCCreate_perm_quick.cfg", "MCCreate_names.cfg", "MCCreate_fmt.cfg"],
         [SAB_SUM, SAB_RESET], env={"CREATE_ALSO": "bcf", "CREATE_BOTH_SYNTAX": "1"})
     # a cohort whose output has more than 2^16 cells (2 x 128 individuals, 257 x 257): the writer and every reduction run
     # beyond any block size (CreateLarge.tla, factored form)
